@@ -1203,16 +1203,18 @@ pub fn run(ctx: &Ctx, rep: &mut Report, replay: Option<&serde_json::Value>) {
     }
     let x = Exec::new(&dir);
     let probes = all_probes();
+    // a replayed case is executed even if it has a known hazardous shape
+    let rk = replay.is_some();
 
     let rec_case = |c: &RecCase, i: &mut CaseInfo| {
         i.class(mutation_class(&c.mutation));
         let e = c.base.encode();
         let d = apply(&e, &c.mutation);
-        x.judge_record(c.base.rec(), &d, !matches!(c.mutation, Mutation::None), false, i)
+        x.judge_record(c.base.rec(), &d, !matches!(c.mutation, Mutation::None), rk, i)
     };
     let raw_case = |c: &RawCase, i: &mut CaseInfo| {
         i.class("mut=arbitrary-bytes");
-        x.judge_record(c.rec, &c.data.0, true, false, i)
+        x.judge_record(c.rec, &c.data.0, true, rk, i)
     };
     let base_cache: RefCell<std::collections::HashMap<String, Vec<u8>>> = RefCell::new(Default::default());
     let arch_case = |c: &ArchCase, i: &mut CaseInfo| {
@@ -1236,9 +1238,9 @@ pub fn run(ctx: &Ctx, rep: &mut Report, replay: Option<&serde_json::Value>) {
             },
         };
         let d = apply_arch(&base, &c.mutation);
-        x.judge_archive(&d, &probes, CALL_ALL, false, i)
+        x.judge_archive(&d, &probes, CALL_ALL, rk, i)
     };
-    let arch_bytes = |d: &Hex, i: &mut CaseInfo| x.judge_archive(&d.0, &probes, CALL_ALL, false, i);
+    let arch_bytes = |d: &Hex, i: &mut CaseInfo| x.judge_archive(&d.0, &probes, CALL_ALL, rk, i);
     let known_case = |c: &KnownCase, i: &mut CaseInfo| judge_known(&x, &dir, c, i);
 
     if let Some(v) = replay {
@@ -1253,7 +1255,7 @@ pub fn run(ctx: &Ctx, rep: &mut Report, replay: Option<&serde_json::Value>) {
             other if other.starts_with("fuzz:dec_") || other.starts_with("corpus:dec_") => {
                 let name = other.rsplit("dec_").next().unwrap_or("");
                 let rec = Rec::ALL.iter().copied().find(|r| r.name() == name).expect("decoder name");
-                run_case(ctx, rep, other, &serde_json::from_value::<Hex>(t.case).expect("case"), |d, i| x.judge_record(rec, &d.0, true, false, i))
+                run_case(ctx, rep, other, &serde_json::from_value::<Hex>(t.case).expect("case"), |d, i| x.judge_record(rec, &d.0, true, true, i))
             }
             other => panic!("unknown sub {}", other),
         }
